@@ -3,6 +3,7 @@ package checks
 import (
 	"errors"
 	"fmt"
+	"math"
 	"strconv"
 	"strings"
 	"testing"
@@ -301,7 +302,7 @@ func c04BoundaryLiteral(e *lib.Node, n int) *lib.Node {
 				return lib.Int(x)
 			}
 		case float64:
-			if x >= 0 && x < 1e15 {
+			if x >= 0 && !math.Signbit(x) && x < 1e15 { // (-0 is >= 0 and is written with a sign)
 				t := strconv.FormatFloat(x, 'f', -1, 64)
 				if !strings.Contains(t, ".") {
 					t += ".0"
